@@ -80,7 +80,7 @@ LawsPartB(z) ==
       x \in Locs, s \in Specials, others \in BOOLEAN}
 
 (* ---- invoc: main file and -J given as absolute paths; odd -J lists ------ *)
-JPx == JPs \cup {<<<<"nodir">>, L1>>, <<L1, <<"nodir">>>>, <<L1, L1, L2>>}
+JPx == JPs \cup {<<<<"nodir">>, L1>>, <<L1, <<"nodir">>>>, <<L1, L1, L2>>, <<L1, L2, L1>>, <<L2, L1, L2>>}
 JPxQ == SetToSeq(JPx)
 InvPresQ == <<{L1}, {L1, L2}, {LSub, L2}, Locs>>
 InvSpQ == <<<<A>>, <<"sub", "..", A>>, <<"..", "L1", A>>, Abs(L2 \o <<A>>)>>
@@ -91,7 +91,7 @@ InvocScen(pres, jp, w, sp, m) ==
        IF m[1] THEN Abs(MainPath) ELSE MainPath)
 InvocPart(z) ==
   {InvocScen(InvPresQ[u[1]], JPxQ[u[2]], ImpQ[u[3]], InvSpQ[u[4]], InvModeQ[u[5]]) :
-      u \in {v \in (1..4) \X (1..8) \X (1..3) \X (1..4) \X (1..3) : Sel(v[1] + v[2] + v[3] + v[4] + v[5])}}
+      u \in {v \in (1..4) \X (1..10) \X (1..3) \X (1..4) \X (1..3) : Sel(v[1] + v[2] + v[3] + v[4] + v[5])}}
 
 (* ---- pairs: the same file reached twice or three times ------------------ *)
 PairFs(mainHasA) ==
@@ -120,6 +120,19 @@ PairsPartC(z) ==
   {PairScen(u[1] = 1, <<L1>>, <<Stmt("import", TripleSpQ[u[2]], 0), Stmt("import", TripleSpQ[u[3]], 0),
                                 Stmt("import", TripleSpQ[u[4]], 0)>>, FALSE) :
       u \in {v \in (1..2) \X (1..5) \X (1..5) \X (1..5) : Sel(v[1] + v[2] + v[3] + v[4])}}
+
+(* ---- the SAME spelling used by importers in different directories denotes  *)
+(* ---- DIFFERENT files: main/a, main/sub/a (or the -J copy) ---------------- *)
+SameSpellScen(k1, k2, mainHasA, subHasA, jp) ==
+  Scen("pairs",
+       (IF mainHasA THEN {<<LMain \o <<A>>, Leaf(1)>>} ELSE {})
+       \cup (IF subHasA THEN {<<LSub \o <<A>>, Leaf(2)>>} ELSE {})
+       \cup {<<L1 \o <<A>>, Leaf(3)>>, <<L2 \o <<A>>, Leaf(4)>>,
+             <<LSub \o <<"imp.libsonnet">>, Code(5, <<Stmt(k2, <<A>>, 0)>>, <<>>, FALSE)>>,
+             <<MainPath, Code(0, <<Stmt(k1, <<A>>, 0), Stmt("import", <<"sub", "imp.libsonnet">>, 0), Stmt(k1, <<".", A>>, 0)>>, <<>>, FALSE)>>},
+       jp, MainPath)
+PairsPartD(z) ==
+  {SameSpellScen(k1, k2, m, sb, jp) : k1 \in Kinds, k2 \in Kinds, m \in BOOLEAN, sb \in BOOLEAN, jp \in {<<L1>>, <<L1, L2>>}}
 
 (* ---- cycles: c1 <-> c2 (and self-import), demanded or not --------------- *)
 C1 == LMain \o <<"c1.libsonnet">>
@@ -171,13 +184,13 @@ ContentPart(z) ==
                     <<MainPath, Code(0, <<Stmt("str", <<"d.bin">>, 0), Stmt("bin", <<"d.bin">>, 0)>>, <<>>, FALSE)>>},
         <<>>, MainPath) : b \in ByteSeqs(z)}
 
-NSub(m) == CASE m = "laws" -> 2 [] m = "pairs" -> 3 [] m = "cycles" -> 2 [] OTHER -> 1
+NSub(m) == CASE m = "laws" -> 2 [] m = "pairs" -> 4 [] m = "cycles" -> 2 [] OTHER -> 1
 Part(m, i) ==
   CASE m = "search" -> SearchPart(m)
     [] m = "special" -> SpecialPart(m)
     [] m = "invoc" -> InvocPart(m)
     [] m = "laws" -> IF i = 1 THEN LawsPartA(m) ELSE LawsPartB(m)
-    [] m = "pairs" -> IF i = 1 THEN PairsPartA(m) ELSE IF i = 2 THEN PairsPartB(m) ELSE PairsPartC(m)
+    [] m = "pairs" -> IF i = 1 THEN PairsPartA(m) ELSE IF i = 2 THEN PairsPartB(m) ELSE IF i = 3 THEN PairsPartC(m) ELSE PairsPartD(m)
     [] m = "cycles" -> IF i = 1 THEN {s \in CyclesPart(m) : CyclesOk(s)} ELSE SelfPart(m)
     [] m = "data" -> DataPart(m)
     [] m = "content" -> ContentPart(m)
